@@ -1,6 +1,7 @@
 package sim
 
 import (
+	"encoding/base64"
 	"encoding/binary"
 	"errors"
 	"fmt"
@@ -181,7 +182,7 @@ func (bc *blobCase) try(blob []byte, kind string) bool {
 		var wp *WalkPanic
 		if errors.As(err, &wp) {
 			r.violate("deserialize-panic", panicSig(wp), fmt.Sprintf("Deserialize panicked on a %s blob (%d bytes, dst reused %v): %v", kind, len(blob), bc.dst != nil, wp))
-			r.Res.Inputs["blob"] = b64(blob)
+			r.Res.Inputs["blob"] = base64.StdEncoding.EncodeToString(blob)
 			return false
 		}
 	}
@@ -191,7 +192,7 @@ func (bc *blobCase) try(blob []byte, kind string) bool {
 	}
 	bc.accepted++
 	if !traverseAll(r, out, fmt.Sprintf("result of Deserialize on a %s blob (%d bytes)", kind, len(blob))) {
-		r.Res.Inputs["blob"] = b64(blob)
+		r.Res.Inputs["blob"] = base64.StdEncoding.EncodeToString(blob)
 		return false
 	}
 	return true
@@ -233,7 +234,9 @@ func RunFaultBlob(r *Run) {
 	}
 	base = append([]byte(nil), base...)
 	r.Res.Sample["base"] = fmt.Sprintf("mode=%d tape=%d words blob=%d bytes nd=%v edited=%v", mode, len(o.pj.Tape), len(base), o.nd, o.edited)
-	r.fp.u64(hashBytes(base))
+	// blob bytes depend on the process-random string hash seed: never part of a fingerprint
+	r.fp.u64(digestRoots(o.model))
+	r.fp.u64(uint64(mode))
 	bc := &blobCase{r: r, ser: simdjson.NewSerializer(), seen: map[uint64]bool{}}
 	bc.ser.CompressMode(simdjson.CompressMode(c.Intn("rmode", 4)))
 	if c.Intn("dstreuse", 3) == 0 {
@@ -251,6 +254,13 @@ func RunFaultBlob(r *Run) {
 		r.stat("accepted_results_traversed", bc.accepted)
 		r.stat("rejected_with_error", bc.rejected)
 	}()
+	if lit, ok := replayInputs["blob"]; ok {
+		// replay files carry the literal mutated blob (its bytes cannot be regenerated in another process)
+		if raw, err := base64.StdEncoding.DecodeString(lit); err == nil {
+			bc.try(raw, "replayed-literal")
+			return
+		}
+	}
 	if !bc.try(base, "unmodified") {
 		return
 	}
